@@ -6,6 +6,7 @@ pub mod codec;
 pub mod ctx;
 pub mod driver;
 pub mod findings;
+pub mod fuzzing;
 pub mod isolate;
 pub mod pipeline;
 pub mod proc;
